@@ -98,6 +98,7 @@ type MapObj struct {
 }
 
 type ChanObj struct {
+	sendq  []*sendItem
 	buf    []Value
 	cap    int
 	closed bool
